@@ -66,6 +66,52 @@ def run(chk):
                 meta.append(dict(info, slices=k, kind="backend-zero-coupling-vs-free-product"))
         chk.count("backend_d%d" % d)
 
+    # ---- (a2) the glue of GibbsTempo itself (slice length, coefficient requests, propagator, read-out) -------
+    # injected Matsubara integrals -m_k ln 2 through a CustomSD subclass; H = diag(E) with exp(-E dt/2) a power of two
+    class InjSD(oqupy.CustomSD):
+        def __init__(self, ms, temperature):
+            super().__init__(lambda w: w, cutoff=1.0, cutoff_type="exponential", temperature=temperature)
+            self.ms, self.calls = ms, []
+
+        def correlation_2d_integral(self, delta, time_1, time_2=None, shape="square", epsrel=1e-8, matsubara=False, **kw):
+            k = int(round(time_1 / delta))
+            self.calls.append((k, shape, bool(matsubara), float(delta), time_2))
+            return complex(-self.ms[k] * LN2, 0.0)
+
+    for it in range(40 if thorough else 14):
+        d = rng.choice([2, 2, 3])
+        N = rng.choice([2, 3, 4, 5, 6, 7] if d == 2 else [2, 3, 4, 5])
+        T = rng.choice([0.5, 1.0, 2.0])
+        o = [rng.randint(0, 2) for _ in range(d)]
+        e = [rng.randint(0, 1) for _ in range(d)]
+        ms = [rng.randint(0, 2) for _ in range(N + 3)]
+        dt = 1 / (T * N)
+        info = {"kind": "GibbsTempo-glue", "d": d, "n_steps": N, "T": T, "o": o, "e": e, "m": ms}
+        try:
+            corr = InjSD(ms, T)
+            g = oqupy.GibbsTempo(oqupy.System(np.diag([-2 * x * LN2 / dt for x in e]).astype(complex)),
+                                 oqupy.Bath(np.diag(np.array(o, dtype=float)), corr), oqupy.GibbsParameters(n_steps=N, epsrel=1e-15))
+            dyn = quiet(g.compute, progress_type="silent")
+            states = [np.array(x) for x in dyn.states]
+            times = list(dyn.times)
+        except Exception as ex:
+            chk.fail("gibbs-raises", f"GibbsTempo raises {ex!r}", info)
+            continue
+        chk.search_cases += 1
+        chk.count("gibbs_glue_d%d" % d)
+        bad = [c for c in corr.calls if c[1] != ("upper-triangle" if c[0] == 0 else "square") or not c[2] or abs(c[3] - dt) > 1e-15 * dt or c[4] is not None]
+        if bad:
+            chk.fail("gibbs-coefficient-request", f"GibbsTempo requests the Matsubara integral with (k, shape, matsubara, delta, time_2) = {bad[0]} "
+                     f"(slice length {dt})", info)
+        if len(states) != N + 1 or abs(times[-1] - 1 / T) > 1e-12 / T:
+            chk.fail("gibbs-imaginary-time", f"GibbsTempo with n_steps={N}, T={T} ends after {len(states) - 1} slices at imaginary time {times[-1]} (expected {N} slices, 1/T = {1 / T})", info)
+        P = np.diag([2.0 ** x for x in e])
+        for k in range(1, len(states)):
+            exprs.append(f"gibbs_flat {d} {zmat_lit(P)} {coq_list([zlit(x) for x in o])} {coq_list([zlit(x) for x in ms])} {k}")
+            expected.append(states[k].reshape(-1))
+            meta.append(dict(info, slices=k))
+            chk.case(meta[-1], ("glue", d, N, T, tuple(o), tuple(e), tuple(ms), k))
+
     vals, errs = run_cases("C11", HEADER, exprs, chunk=40)
     for e in errs:
         chk.disagree("coq evaluation", e)
@@ -79,7 +125,7 @@ def run(chk):
     for it in range(n_search):
         d = rng.choice([2, 2, 3, 4] if thorough else [2, 2, 3])
         T = rng.choice([0.5, 1.0, 2.0])
-        nst = rng.choice([4, 10, 25])
+        nst = rng.choice([2, 3, 4, 5, 7, 10, 25])
         kind = rng.choice(["commuting", "commuting", "zero-coupling", "weak"])
         o = np.array([rng.choice([-1.0, 0.0, 0.5, 1.0]) for _ in range(d)])
         alpha = 0.0 if kind == "zero-coupling" else (0.3 if kind == "commuting" else 1e-4)
@@ -130,8 +176,9 @@ def run(chk):
         trusted=["model: Model/PathSum.v instantiated for imaginary time (Model/Glue.v gibbs_flat); weights are exact powers of two "
                  "(coefficients -m ln 2), comparison at 1e-8 relative because SVDs sit in the back-end",
                  "search oracle: closed forms with the reorganisation energy from an independent quadrature of the object's own spectral density"],
-        rule="TIBaseBackend with integer non-symmetric half-step propagators, coupling eigenvalues in {0,1,2}, coefficients in {0,-ln 2}, dimension "
-             "2-3, 1-4 slices (every intermediate read-out); GibbsTempo on commuting models (all cut-offs, T, n_steps in {4,10,25}), complex "
+        rule="GibbsTempo itself with injected Matsubara integrals (CustomSD subclass) and power-of-two diagonal propagators, n_steps 2-7, every slice; "
+             "TIBaseBackend with integer non-symmetric half-step propagators, coupling eigenvalues in {0,1,2}, coefficients in {0,-ln 2}, dimension "
+             "2-3, 1-4 slices (every intermediate read-out); GibbsTempo on commuting models (all cut-offs, T, n_steps in {2,3,4,5,7,10,25}), complex "
              "Hermitian Hamiltonians at zero and weak coupling, repeated compute(); distinct = distinct configuration",
         assumptions=["accuracy of the Matsubara quadrature is explored, not proved",
                      "at zero coupling the network is the product of the half-slice propagators (theorem gibbs_zero_coupling, tied to TIBaseBackend exactly); that this product is exp(-H/T) is expm's semigroup law, observed by the search at 1e-8"])
